@@ -11,6 +11,9 @@
 |x: &(IpAddr, Arc<RtrMetricsData>)| -> (r: Ordering) ensures r == ip_cmp(x.0, addr)
 //@ closure binary_search_by 2 optional
 |x: &(IpAddr, Arc<RtrMetricsData>)| -> (r: Ordering) ensures r == ip_cmp(x.0, addr)
+//@ beforecall store 1
+        // trigger term for the precondition of ArcSwap::store (see units/rtr_registry/contracts.rs)
+        let ghost __inserted = new_addrs@[idx as int];
 //@ exit
         // C36: the write mutex is held until after the store: `_write` is the guard of self.write and is
         // still a live binding of the outermost block here (a guard dropped earlier would not be nameable)
